@@ -200,3 +200,19 @@ Proof.
   - intros f' r Hf. unfold read. rewrite (wire_dec f e s a Ht f' Hf r). cbn [bind]. rewrite Hp. reflexivity.
   - exact (closure_bytes f o e s a pv Ht Hc (elab_floats_stable _ _ _ _ _ _ H) Hp).
 Qed.
+
+(** C01: read-after-write is idempotent.  Write v, read it (no named-type reporting): out.  Write out: the same bytes; read:
+    out again.  Side condition [closb0] on the written value (every union value re-resolves to its branch when read back plain). *)
+From FA Require Import proofs.NormalForm.
+Theorem normal_form_idempotent f o e s v a out :
+  elab f o e s v = WOk a -> data_ok e s v -> closb0 f o e s a = true -> py_of ropts0 e s a = Some out ->
+  write f o e s v = WOk (wire a) /\
+  exists f0, forall f', (f0 <= f')%nat ->
+    elab f' o e s out = WOk a /\ write f' o e s out = WOk (wire a) /\
+    forall f'' r, (f <= f'')%nat -> read f'' ropts0 e s (wire a ++ r) = Ok (out, r).
+Proof.
+  intros H (He & Hs & Hv & Hfe & Hfs & Hfv) Hc Hp.
+  pose proof (elab_typedn f o e s v a H He Hs Hv (elab_floats_ok _ _ _ _ _ _ H Hfe Hfs Hfv)) as Ht.
+  split; [unfold write; rewrite H; reflexivity|].
+  exact (normal_form_fixed f o e s a out Ht Hc (elab_floats_stable _ _ _ _ _ _ H) Hp).
+Qed.
